@@ -445,26 +445,60 @@ func c01mint(w *World, r *Report, mintSites []*Site) {
 	minterMod, _ := constOf(w, "x/cfeminter/types", "ModuleName")
 	mainAcc, _ := constOf(w, "x/cfedistributor/types", "DistributorMainAccount")
 	// the calls in mint that reach BANK.mint / BANK.move
-	var mintCalls, fwdCalls []*Site
-	for _, s := range cg.Sites[mintFn] {
-		for _, c := range s.Callees {
-			if c == mintFn {
-				continue
+	reachCalls := func(fn *ssa.Function) (mintCalls, fwdCalls []*Site) {
+		for _, s := range cg.Sites[fn] {
+			for _, c := range s.Callees {
+				if c == fn || c == mintFn {
+					continue
+				}
+				below := cg.targetsBelow(c, func(x *Site) bool { return cg.Atom(x) == BankMint }, map[*ssa.Function]bool{})
+				if len(below) > 0 {
+					mintCalls = append(mintCalls, s)
+				}
+				below = cg.targetsBelow(c, func(x *Site) bool { return cg.Atom(x) == BankMove }, map[*ssa.Function]bool{})
+				if len(below) > 0 {
+					fwdCalls = append(fwdCalls, s)
+				}
 			}
-			below := cg.targetsBelow(c, func(x *Site) bool { return cg.Atom(x) == BankMint }, map[*ssa.Function]bool{})
-			if len(below) > 0 {
+			switch cg.Atom(s) {
+			case BankMint:
 				mintCalls = append(mintCalls, s)
-			}
-			below = cg.targetsBelow(c, func(x *Site) bool { return cg.Atom(x) == BankMove }, map[*ssa.Function]bool{})
-			if len(below) > 0 {
+			case BankMove:
 				fwdCalls = append(fwdCalls, s)
 			}
 		}
-		switch cg.Atom(s) {
-		case BankMint:
-			mintCalls = append(mintCalls, s)
-		case BankMove:
-			fwdCalls = append(fwdCalls, s)
+		return
+	}
+	mintCalls, fwdCalls := reachCalls(mintFn)
+	// mint and forward moved together into one helper (`k.mintAndSendCoins(ctx, coins)`): the pairing is decided inside
+	// the helper - same coins parameter minted and forwarded, forward on the success edge of the mint, a nil result only
+	// behind the success edges of both - and the routine sees one call that stands for both
+	var pairHelper *ssa.Function
+	if len(mintCalls) == 1 && len(fwdCalls) == 1 && mintCalls[0] == fwdCalls[0] && mintCalls[0].Static != nil && !mintCalls[0].Invoke {
+		h := mintCalls[0].Static
+		hm, hf := reachCalls(h)
+		if len(hm) == 1 && len(hf) == 1 && hm[0] != hf[0] {
+			pairHelper = h
+			hp := w.Pos(hf[0].Instr.Pos())
+			_, isP := coinsArg(hm[0]).(*ssa.Parameter)
+			r.Check(isP && coinsArg(hf[0]) == coinsArg(hm[0]), "C01.mint1", "mint: coins forwarded == coins minted", hp, "the helper mints and forwards its one coins parameter", "the coins forwarded to the collector are not the coins minted")
+			r.Check(OnSuccessEdge(h, hf[0].Instr, siteValue(hm[0])), "C01.mint1", "mint: forward only after a successful mint", hp, "dominated by the nil edge of the mint's error (inside "+funcName(h)+")", "coins can be forwarded without a successful mint")
+			okRet := true
+			for _, ret := range Returns(h) {
+				rv := retVals(ret)
+				if len(rv) == 0 || !isErrorType(rv[len(rv)-1].Type()) {
+					okRet = false
+					continue
+				}
+				if nonNilAt(rv[len(rv)-1], ret.Block(), 0) {
+					continue
+				}
+				if !OnSuccessEdge(h, ret, siteValue(hm[0])) || !OnSuccessEdge(h, ret, siteValue(hf[0])) {
+					okRet = false
+				}
+			}
+			r.Check(okRet, "C01.mint1", "mint: the mint-and-forward helper succeeds only when both succeeded", hp, "every return whose error may be nil lies behind the nil edges of both errors", funcName(h)+" can report success although the mint or the forward failed")
+			fwdCalls = nil
 		}
 	}
 	if len(mintCalls) != 1 {
@@ -491,7 +525,16 @@ func c01mint(w *World, r *Report, mintSites []*Site) {
 		return
 	}
 	// forward
-	if len(fwdCalls) != 1 {
+	if pairHelper != nil {
+		// decided inside the helper (above); the module names of the transfer below it
+		for _, ms := range cg.targetsBelow(pairHelper, func(x *Site) bool { return cg.Atom(x) == BankMove }, map[*ssa.Function]bool{}) {
+			names := w.bankStringArgs(ms)
+			ok := ms.Method == "SendCoinsFromModuleToModule" && len(names) == 2 && len(names[0]) == 1 && names[0][0] == minterMod && len(names[1]) == 1 && names[1][0] == "field:collectorName"
+			r.Check(ok, "C01.mint1", "forward: cfeminter -> collector", w.Pos(ms.Instr.Pos()), "SendCoinsFromModuleToModule(cfeminter, k.collectorName, coins)", fmt.Sprintf("forwarding transfer is %s with module arguments %v", ms.Method, names))
+			_, isParam := coinsArg(ms).(*ssa.Parameter)
+			r.Check(isParam, "C01.mint1", "wrapper "+funcName(ms.Caller)+" forwards its coins parameter", w.Pos(ms.Instr.Pos()), "the coins sent are the wrapper's parameter", "the wrapper sends something else than its parameter")
+		}
+	} else if len(fwdCalls) != 1 {
 		r.Bad("C01.mint1", "mint: exactly one forwarding transfer", w.Pos(mintFn.Pos()), fmt.Sprintf("%d calls in mint reach a bank transfer", len(fwdCalls)))
 	} else {
 		fc := fwdCalls[0]
